@@ -208,6 +208,7 @@ ssize_t sendmsg(int fd, const struct msghdr *msg, int flags) {
     if (msg->msg_name) { int c = k_connect(fd, msg->msg_name, msg->msg_namelen); if (c < 0) { errno = -c; return -1; } }
     long r = k_send(fd, all.data(), all.size(), flags); if (r < 0) { errno = (int)-r; return -1; } return r;
 }
+static bool locked_by_other_process(int fd);
 int fcntl(int fd, int cmd, ...) {
     va_list ap; va_start(ap, cmd); long arg = va_arg(ap, long); va_end(ap);
     if (!simfd(fd) || t_in_sim) return (int)rawret(RAW(SYS_fcntl, fd, cmd, arg, 0, 0, 0));
@@ -215,6 +216,7 @@ int fcntl(int fd, int cmd, ...) {
     auto it = G.fds.find(fd);
     if (it == G.fds.end()) { errno = EBADF; return -1; }
     if (cmd == F_SETLKW) { t_in_sim--; blocks("fcntl(F_SETLKW)"); t_in_sim++; return 0; }
+    if (cmd == F_SETLK) { struct flock *fl = (struct flock *)arg; if (fl && fl->l_type != F_UNLCK && locked_by_other_process(fd)) { errno = EAGAIN; return -1; } return 0; }
     if (cmd == F_GETFL) return (int)(it->second.flags | (it->second.nonblock ? O_NONBLOCK : 0));
     if (cmd == F_SETFL) { it->second.nonblock = (arg & O_NONBLOCK) != 0; it->second.flags = (it->second.flags & ~(long)(O_NONBLOCK | O_APPEND)) | (arg & (O_NONBLOCK | O_APPEND)); return 0; }
     if (cmd == F_GETFD) return it->second.cloexec ? FD_CLOEXEC : 0;
@@ -607,7 +609,16 @@ int select(int n, fd_set *r, fd_set *w, fd_set *x, struct timeval *tv) { if (!si
 int fileno(FILE *f) { if (sim_active()) { int fd = k_fileno(f); if (fd >= 0) return fd; } return REAL(fileno)(f); }
 int fileno_unlocked(FILE *f) { if (sim_active()) { int fd = k_fileno(f); if (fd >= 0) return fd; } return REAL(fileno_unlocked)(f); }
 int flock(int fd, int op) { if (!sim_active()) return (int)rawret(RAW(SYS_flock, fd, op, 0, 0, 0, 0)); if (!simfd(fd)) { if (!(op & 4)) blocks("flock"); return 0; } SimScope s; int r = k_flock(fd, op); if (r < 0) { errno = -r; return -1; } return 0; }
-int lockf(int fd, int cmd, off_t len) { if (!sim_active()) return REAL(lockf)(fd, cmd, len); if (cmd == 1) blocks("lockf"); return 0; }
+// POSIX record locks: they do not conflict between the threads of one process; what matters is another process holding one
+static bool locked_by_other_process(int fd) { auto it = G.fds.find(fd); if (it == G.fds.end()) return false; auto nt = G.w.files.find(it->second.path); return nt != G.w.files.end() && nt->second.locked_by_other; }
+int lockf(int fd, int cmd, off_t len) {
+    if (!sim_active()) return REAL(lockf)(fd, cmd, len);
+    if (!simfd(fd)) { if (cmd == 1) blocks("lockf"); return 0; }
+    bool other; { SimScope s; sim_step(); sim_event("lockf").a = cmd; other = locked_by_other_process(fd); }
+    if (cmd == 1 /* F_LOCK */) { blocks("lockf"); return 0; }                      // waits for as long as the other process likes
+    if ((cmd == 2 /* F_TLOCK */ || cmd == 3 /* F_TEST */) && other) { errno = EAGAIN; return -1; }
+    return 0;
+}
 void openlog(const char *id, int opt, int fac) { if (!sim_active()) { REAL(openlog)(id, opt, fac); return; } SimScope s; sim_step(); sim_event("openlog", id ? id : ""); }
 void closelog(void) { if (!sim_active()) { REAL(closelog)(); return; } SimScope s; sim_step(); sim_event("closelog"); }
 void syslog(int pri, const char *fmt, ...) {
